@@ -103,6 +103,7 @@ def handle (req : Json) : Except String Json := do
     [s!"depth:{maxDepth}"] ++
     (if classes.any (fun c => c.methods.any (fun m => m.specs.length ≥ 2)) then ["deps:several"] else ["deps:one"]) ++
     (if classes.any (fun c => c.methods.any (fun m => m.specs.any (fun s => s.leaf == "param"))) then ["leaf:param"] else []) ++
+    (if classes.any (fun c => c.methods.any (fun m => m.specs.any (fun s => c.objParams.contains s.leaf))) then ["leaf:object"] else []) ++
     (if mSteps.any (fun s => s.2.err.isSome) then ["step:error"] else []) ++
     (if impl == model then ["json:model-equals-impl"] else ["json:model-differs"]) ++
     (if mSteps.any (fun s => s.2.raised) then ["step:method-raised"] else []) ++
